@@ -4125,6 +4125,10 @@ impl Interpreter {
 
         let result = vm.run(self);
 
+        // A `return` from inside nested blocks leaves block scopes open: close them (and
+        // release their environment guards) before releasing the function's own guard
+        vm.close_open_scopes(self);
+
         // Restore environment
         self.pop_env_guard();
         self.env = saved_env;
